@@ -3,6 +3,8 @@
 
 mod builders;
 mod c12;
+mod c13;
+mod c15;
 mod campaign;
 mod convert;
 mod crash;
